@@ -22,6 +22,15 @@ MISSED_FIRST = {
     "C09r2-2": "special-value numerals through the streaming entry point as well (put_special)",
     "C14r2-2": "the string entry point is run on every fragmented text too (frag-str)",
     "C18r2-2": "limit numerals in every exponent spelling (e+, E, leading zeros) through both entry points; C18 owns parse complaints on its plan",
+    "C15r2-2": "every cross-type numeral also through try_parse for all five types (its round-2 detection was an artefact of the C15 false alarm)",
+    "C02r3-1": "wide_big_patterns: BigBitstring values at 192..3200 bits with exponents at the i32/i64 limits",
+    "C11r3-1": "wide_big_patterns in C11", "C11r3-2": "wide_big_patterns in C11", "C13r3-1": "wide_big_patterns in C13",
+    "C04r3-2": "g_exp_texts: exponent texts of every length 1..45 and around 2^31..2^128", "C07r3-2": "g_exp_texts (one format range below 2^32)",
+    "C05r3-1": "formatter options on every format/roundtrip request; a killed or non-returning harness process is a violation with bisected replay",
+    "C06r3-1": "g_swallow_invalid: junk around numerals from a Display that ignores write errors",
+    "C08r3-1": "NaN payloads 2^k, 2^k+1, 2^k+2^(k/2) through to_f32/to_f64",
+    "C14r3-2": "streaming texts beyond 65535 bytes for BigBitstring",
+    "C18r3-1": "limit numerals with 9 and 14 padding zeros in the exponent", "C18r3-2": "limit numerals filling the text buffer exactly; capacities as constants instead of probed",
     "C12r2-1": "double rounding, 2 of 2^32 f32 patterns: only the exhaustive from_f32 -> to_f32 sweep of the thorough tier finds it",
 }
 
@@ -56,7 +65,7 @@ def main():
                 # round 3 was evaluated while C15 had a false alarm of its own on trait entry points (DESIGN §13): a C15
                 # report whose first example is that artefact does not count as a detection
                 ex = (v.get("first") or {}).get("example", "") if isinstance(v.get("first"), dict) else ""
-                if c == "C15" and "@trait" in ex and "types_disagree" in ex:
+                if c == "C15" and "types_disagree" in ex and ("@trait" in ex or "special-case-fmt" in ex or "special-payload-fmt" in ex):
                     continue
                 (det_corr if "no-failing-input-found" in v["line"] else det_spec).append(c)
         own_final = None
